@@ -275,23 +275,29 @@ def violation_key(res, variant):
     return res.get("cls", "unknown")
 
 
-def minimise(binfo, scratch, variant, plan, hist, key, budget_runs=300):
+def minimise(binfo, scratch, variant, plan, hist, key, step=None, wall_cap=150):
+    t0 = time.time()
     cfg = [l for l in hist if l.startswith("cfg") and not l.startswith("cfg check")]
     ops = [l for l in hist if not l.startswith("cfg")]
 
     def fails_with(p, o):
+        if time.time() - t0 > wall_cap:
+            return False		# out of minimisation budget: keep what we have
         r = run_history(binfo, scratch, variant, p, cfg + o)
         return r["kind"] == "VIOLATION" and violation_key(r, variant) == key
 
+    # 0. nothing after the step that failed matters
+    if step and step < len(ops) and fails_with(plan, ops[:step]):
+        ops = ops[:step]
     # 1. plan events first (forced collections, audits, fill)
     keep_plan = [l for l in plan if l.startswith(("heapbase", "sbrk cap"))]
     opt_plan = [l for l in plan if l not in keep_plan]
     if opt_plan and fails_with(keep_plan, ops):
         opt_plan = []
-    elif opt_plan:
-        opt_plan, _ = checklib.ddmin(opt_plan, lambda sub: fails_with(keep_plan + sub, ops), 30) if len(opt_plan) > 1 else (opt_plan, 0)
+    elif len(opt_plan) > 1:
+        opt_plan, _ = checklib.ddmin(opt_plan, lambda sub: fails_with(keep_plan + sub, ops), 30)
     p2 = keep_plan + opt_plan
-    # 2. operations
+    # 2. operations (candidates of one granularity run in parallel)
     ops2, runs = checklib.ddmin_par(ops, lambda sub: fails_with(p2, sub))
     return p2, cfg + ops2, runs
 
@@ -384,7 +390,9 @@ def main(argv):
             if r2["kind"] != "VIOLATION" or violation_key(r2, c["variant"]) != key:
                 out.nondet.append("history %d: violation %s did not reproduce" % (i, key))
                 continue
-            p2, h2, runs = minimise(binfo, scratch, c["variant"], c["plan"], c["hist"], key)
+            mstep = re.search(r"step=(\d+)", r2.get("detail", ""))
+            p2, h2, runs = minimise(binfo, scratch, c["variant"], c["plan"], c["hist"], key,
+                                    step=int(mstep.group(1)) if mstep else None)
             r3 = run_history(binfo, scratch, c["variant"], p2, h2)
             if r3["kind"] != "VIOLATION" or violation_key(r3, c["variant"]) != key:
                 p2, h2, r3 = c["plan"], c["hist"], r2
